@@ -116,8 +116,9 @@ def run_job(job):
     tag = '%s-%s-%s-%d-%d' % (sj['name'], flavour, profile, seed, os.getpid())
     logp = os.path.join(tmpd, tag + '.log')
     nolog = bool(PROFILES[profile].get('_nolog'))
-    args = ['steps=%d' % (steps * (8 if nolog else 1)), 'seed=%d' % seed] + ([] if nolog else ['log=' + logp]) + knob_args(profile)
-    rc, out, err = vlib.run_bin(binp, args, timeout=600, stdout_path=logp if nolog else None, memcheck=flavour.endswith('-vg'))
+    # watchdog inside the harness: a healthy quick run takes seconds; a library call that never returns is reported with its backtrace
+    args = ['steps=%d' % (steps * (8 if nolog else 1)), 'seed=%d' % seed, 'watchdog=%d' % (150 if steps <= 3000 else 600)] + ([] if nolog else ['log=' + logp]) + knob_args(profile)
+    rc, out, err = vlib.run_bin(binp, args, timeout=700, stdout_path=logp if nolog else None, memcheck=flavour.endswith('-vg'))
     res = {'shape': sj['name'], 'desc': sj['desc'], 'cfg': sj['cfg'], 'sj': sj, 'flavour': flavour, 'profile': profile, 'seed': seed, 'steps': steps, 'rc': rc, 'args': args}
     skey = vlib.sanitizer_key(err) if err else None
     if rc == 99 and flavour.endswith('-vg') and not skey: skey = 'memcheck:error'
@@ -219,6 +220,7 @@ def shape_engine(prop, tier, seed, keep=False):
     if joindiff and 'clang-dev' not in flavours: flavours.append('clang-dev')
     big = ()
     if tier == 'thorough': big = {'C08': ('k_serial_big', 'k_wide_nested', 'k_deep_ortho'), 'C11': ('k_serial_big', 'k_deep_ortho')}.get(prop, ('k_wide_nested', 'k_deep_ortho'))
+    if prop in ('C13', 'C01'): big = tuple(big) + ('k_states273',)      # state ids beyond 8 bits (both tiers: the queries of C13 / the invariant of C01)
     shapeset = shp.shape_set(seed, T['n_random'], big=big)
     if prop == 'C16':
         for sj in shapeset[1::2]: shp.add_masks(sj, seed)      # every other shape leaves some methods un-overridden
@@ -228,13 +230,15 @@ def shape_engine(prop, tier, seed, keep=False):
     t0 = time.time()
     # a profile may ask for every n-th shape only (quick tier; expensive builds): _every / _phase
     def takes(P, idx): return tier != 'quick' or idx % P.get('_every', 1) == P.get('_phase', 0) % P.get('_every', 1)
+    def flav_ok(nm, fl): return not (tier == 'quick' and nm == 'k_states273' and fl != 'gcc')     # the 273-state program takes minutes to compile: one compiler in the quick tier
     order = {sj['name']: i for i, sj in enumerate(shapeset)}
     wanted = set()
     for profile in conf['profiles']:
         P = PROFILES[profile]
         for i, sj in enumerate(shapeset):
             if not takes(P, i): continue
-            for fl in P.get('_flavours', flavours): wanted.add((sj['name'], fl, P.get('_extra', '')))
+            for fl in P.get('_flavours', flavours):
+                if flav_ok(sj['name'], fl): wanted.add((sj['name'], fl, P.get('_extra', '')))
     byname = {sj['name']: sj for sj in shapeset}
     builds = vlib.pmap(build_job, [(byname[nm], fl, ex) for nm, fl, ex in sorted(wanted)])
     tb = time.time() - t0
@@ -529,7 +533,10 @@ def c15_job(job):
     try: os.unlink(logp)
     except OSError: pass
     if rc != 0 or tr is None: res['error'] = 'rc=%s %s' % (rc, se[-300:]); return res
-    res['trace'] = tr
+    # the trace itself stays on disk: hundreds of configurations x 10^5 events do not fit in the parent's memory
+    tpath = logp + '.trace'
+    with open(tpath, 'w') as tf: tf.write('\n'.join(tr))
+    res['trace'] = True; res['trace_hash'] = hashlib.sha1('\n'.join(tr).encode()).hexdigest(); res['trace_len'] = len(tr); res['trace_file'] = tpath
     return res
 
 def c15_engine(prop, tier, seed):
@@ -591,12 +598,12 @@ def c15_engine(prop, tier, seed):
         if len(ok) < 2: V.harness_errors.append('%s: fewer than two configurations produced a trace' % name); continue
         # reference = majority trace
         groups = {}
-        for r in ok: groups.setdefault(hashlib.sha1('\n'.join(r['trace']).encode()).hexdigest(), []).append(r)
+        for r in ok: groups.setdefault(r['trace_hash'], []).append(r)
         ref = max(groups.values(), key=len)
         for h, g in groups.items():
             if g is ref: continue
             for r in g:
-                a = ref[0]['trace']; b = r['trace']; i = 0
+                a = open(ref[0]['trace_file']).read().split('\n'); b = open(r['trace_file']).read().split('\n'); i = 0
                 while i < min(len(a), len(b)) and a[i] == b[i]: i += 1
                 if r['label'].endswith('taskcap+'):
                     # more task capacity: comparable until an append is rejected for lack of capacity in either run (behaviour then depends on it)
@@ -604,9 +611,12 @@ def c15_engine(prop, tier, seed):
                     if i >= lim: capped += 1; continue
                 run = {'shape': name, 'desc': meta[name][1]['desc'], 'cfg': meta[name][1]['cfg'], 'flavour': r['flavour'], 'profile': 'c15', 'seed': seed, 'steps': T['steps'], 'args': r['args'], 'sj': meta[name][1], 'defs': r['defs']}
                 V.add('trace|behaviour-differs-between-configurations|' + c15_class(r['label']), 1, {'configuration': r['label'], 'reference': ref[0]['label'], 'event': i, 'reference-events': a[i:i + 3], 'this-configuration': b[i:i + 3]}, run)
-        evals += sum(len(r['trace']) for r in ok); compared += len(ok)
+        evals += sum(r['trace_len'] for r in ok); compared += len(ok)
         for r in ok: distinct.add((name, r['label'], r['flavour']))
-        if len(samples) < 3: samples.append({'shape': name, 'desc': meta[name][1]['desc'][:160], 'family': meta[name][0], 'configurations-compared': len(ok), 'trace-events': len(ref[0]['trace']), 'example-configurations': [r['label'] for r in ok[:6]]})
+        if len(samples) < 3: samples.append({'shape': name, 'desc': meta[name][1]['desc'][:160], 'family': meta[name][0], 'configurations-compared': len(ok), 'trace-events': ref[0]['trace_len'], 'example-configurations': [r['label'] for r in ok[:6]]})
+    for r in res:
+        try: os.unlink(r['trace_file'])
+        except Exception: pass
     cov = {'evaluations': evals, 'distinct_nontrivial': len(distinct), 'samples': samples,
            'rule': 'evaluations = normalised trace events (callbacks, requests, guard views, quiescent configurations) compared across builds of the same generated program; distinct_nontrivial = distinct (program, configuration, build flavour) members of the comparison. Configuration label = bits for ' + '/'.join(FEATURES) + ' | logging mode | payload',
            'configurations_compared': compared, 'task_capacity_variants_compared_up_to_the_first_rejected_append': capped, 'configurations_that_do_not_compile': nocompile, 'programs': len(by),
